@@ -6,6 +6,7 @@ import (
 	"os"
 	"path/filepath"
 	"sort"
+	"strings"
 	"sync"
 
 	"github.com/sharedcode/sop"
@@ -278,9 +279,10 @@ func (r *Runner) RunCase(c *Case, prefixFolder string, ref Ref, created []bool) 
 		rin.Txn.Fault = Fault{Index: -1}
 		rout, rerr := RunTxn(rin, r.Root)
 		if rerr != nil {
+			// a crash of the retrying process is classified by where it dies
 			cause := "other"
-			if leftoverClaim(out.Post) {
-				cause = "leftover-claimed-inactive-id"
+			if msg := rerr.Error(); strings.Contains(msg, "getCurrentItem") && strings.Contains(msg, "refetchAndMergeModifications") {
+				cause = "nil-deref-in-getCurrentItem-during-refetch-and-merge"
 			}
 			add("C07", "retry-crashed/"+cause, rerr.Error())
 		} else {
@@ -298,7 +300,11 @@ func (r *Runner) RunCase(c *Case, prefixFolder string, ref Ref, created []bool) 
 					cr2[op.Store] = true
 				}
 				if ok, why := dumpsEqualItems(o.RetryDump, after.Expect(p, cr2)); !ok {
-					add("C07", "retry-wrong-content", why)
+					cause := "other"
+					if leftoverClaim(out.Post) {
+						cause = "leftover-claimed-inactive-id"
+					}
+					add("C07", "retry-wrong-content/"+cause, why)
 				}
 			}
 		}
